@@ -253,3 +253,20 @@ with open(os.path.join(outdir, 'Consts.lean'), 'w') as f:
     f.write('def tailsVersionTag : List Nat := %s\n' % lean_list(ver_bytes))
     f.write('def qualifiableTags : List String := %s\n' % lean_list([lean_str(x) for x in qtags]))
     f.write('\nend AnonModel.Gen\n')
+
+# --------------------------------------------------------------------------- the object store's five core functions
+def fn_body(rel, name):
+    """whitespace-free body of `fn <name>` in file rel (comments stripped); '' when absent"""
+    src = strip_comments(open(os.path.join(repo, rel)).read())
+    m = re.search(r'fn\s+%s\s*(?:<[^>]*>)?\s*\([^)]*\)[^{]*\{' % name, src)
+    if not m: return ''
+    end = match_brace(src, m.end() - 1)
+    return re.sub(r'\s+', '', src[m.end():end - 1])
+
+store_src = {n: fn_body('src/ffi/object.rs', n) for n in ['create', 'load', 'opt_load', 'remove']}
+store_src['next'] = fn_body('src/utils/macros.rs', 'next')
+with open(os.path.join(outdir, 'StoreSrc.lean'), 'w') as f:
+    f.write('/-! GENERATED by tools/extract.py: bodies (whitespace and comments removed) of the object-store functions `Model/Store.lean` models step by step — do not edit. -/\nnamespace AnonModel.Gen\n\n')
+    for k, v in store_src.items():
+        f.write('def storeSrc_%s : String := %s\n' % (k, lean_str(v)))
+    f.write('\nend AnonModel.Gen\n')
